@@ -158,6 +158,7 @@ def _decode_value(fmt, _type, value):
             value = value[:-digits] + '.' + value[-digits:]
         return decimal.Decimal(value)
     elif _type == 'date':
+        value = value.strip()
         if len(value) == 6:
             if value[4:] == '00':
                 # When day == '00', it must be interpreted as last day of month
